@@ -7,7 +7,7 @@ export GOFLAGS=-mod=mod GOPROXY=off
 cd "$wt" || exit 2
 mod=.
 case "$pkg" in estargz*) mod=estargz;; cmd*) mod=cmd;; esac
-rel=${pkg#$mod/}; [ "$mod" = . ] && rel=$pkg
+rel=${pkg#$mod/}; [ "$mod" = . ] && rel=$pkg; [ "$pkg" = "$mod" ] && rel=.
 echo "== patch applied: $(git diff --stat | tail -1)"
 (cd $mod && go build ./... ) || { echo "BUILD FAILED"; exit 1; }
 (cd $mod && go test -count=1 "$@") || { echo "EXISTING TESTS FAIL WITH PATCH"; exit 1; }
